@@ -10,7 +10,7 @@ trap 'git -C /repo checkout -- . >/dev/null 2>&1' EXIT
 trap '' PIPE
 ev=$(mktemp -d)
 for p in $(python3 -c "import json;print(' '.join(c['property_id'] for c in json.load(open('/verif/MANIFEST.json'))['checks']))"); do
-  out=$(cd /verif && ./bin/gritscheck -prop $p -tier quick -evidence-dir "$ev" 2>&1)
+  out=$(cd /verif && ${GRITSCHECK:-./bin/gritscheck} -verif /verif -prop $p -tier quick -evidence-dir "$ev" 2>&1)
   code=$?
   if [ $code -ne 0 ]; then
     echo "== $p exit=$code"
